@@ -19,6 +19,7 @@ from sgx.hsm2dongle import HSM2DongleSGX
 from ledger.hsm2dongle_tcp import HSM2DongleTCP
 from ledger.protocol import HSM2ProtocolLedger
 from ledger.pin import FileBasedPin
+import ledger.pin as lpin
 from comm.protocol import HSM2ProtocolError, HSM2ProtocolInterrupt
 from comm.platform import Platform
 
@@ -68,12 +69,14 @@ def model(c):
 
 
 KEYS = ["mode", "onboarded", "ui_version", "signer_version", "retries", "echo_ok", "unlock_ok",
-        "needs_change", "post_mode", "platform"]
+        "needs_change", "post_mode", "platform", "change"]
+# needs_change values: False, or how the PIN change goes: device reaction / commit failure
+CHANGES = [False, "accept", "refuse", "swerr", "comm", "timeout", "ack-lost", "commit-fails"]
 
 
 class Grid:
     def __init__(self, tier, seed):
-        other = [MODES, ONB, RETRIES, [True, False], [True, False], [True, False], POST, PLATFORMS]
+        other = [MODES, ONB, RETRIES, [True, False], [True, False], CHANGES, POST, PLATFORMS]
         if tier == "thorough":
             self.vpairs = [(u, s) for u in VGRID for s in VGRID]
         else:
@@ -96,7 +99,8 @@ class Grid:
         o = self.other[i % len(self.other)]
         return {"mode": o[0], "onboarded": o[1], "ui_version": list(vp[0]),
                 "signer_version": list(vp[1]), "retries": o[2], "echo_ok": o[3],
-                "unlock_ok": o[4], "needs_change": o[5], "post_mode": o[6], "platform": o[7]}
+                "unlock_ok": o[4], "needs_change": bool(o[5]), "change": o[5],
+                "post_mode": o[6], "platform": o[7]}
 
 
 _TMP = {}
@@ -123,6 +127,9 @@ def build(c):
     w.unlock_ok = c["unlock_ok"]
     w.post_mode = c["post_mode"]
     w.pin = PIN
+    ch = c.get("change", "accept" if c["needs_change"] else False)
+    if ch and ch != "commit-fails":
+        w.newpin_behaviour = ch
     mw.install(w)
     plat = c["platform"]
     Platform.set({"Ledger": Platform.LEDGER, "SGX": Platform.SGX, "TCP": Platform.X86}[plat])
@@ -135,6 +142,10 @@ def build(c):
             with open(pf, "wb") as f:
                 f.write(PIN)
         pin = FileBasedPin(pf, PIN, False)
+        if ch == "commit-fails":
+            def failing_commit():
+                raise lpin.PinError("Error commiting: disk full")
+            pin.commit_change = failing_commit
     if plat == "Ledger":
         dongle = hd.HSM2Dongle(False)
     elif plat == "SGX":
@@ -186,7 +197,7 @@ def run_case(c):
         raise Violation("unexpected-crash", "%r: %s" % (desc, out))
     boundary = c["ui_version"] in BOUNDARY_V[1:] or c["signer_version"] in BOUNDARY_V[1:]
     labels = ["out:" + out, "platform:" + c["platform"], "mode:%s" % c["mode"],
-              "unlocks:%d" % unlocks]
+              "unlocks:%d" % unlocks, "change:%s" % c.get("change", c["needs_change"])]
     if serves:
         labels.append("serves")
     return Out(labels, c["mode"] == BOOT or boundary)
@@ -197,10 +208,14 @@ def run_case(c):
 def server_cases(tier, seed):
     base = {"mode": SIGNER, "onboarded": True, "ui_version": [5, 4, 1],
             "signer_version": [5, 4, 1], "retries": 3, "echo_ok": True, "unlock_ok": True,
-            "needs_change": False, "post_mode": SIGNER, "platform": "Ledger"}
+            "needs_change": False, "change": False, "post_mode": SIGNER, "platform": "Ledger"}
     out = []
     for d in [{}, {"mode": BOOT}, {"mode": BOOT, "platform": "SGX"}, {"mode": BOOT, "retries": 1},
-              {"mode": BOOT, "needs_change": True}, {"mode": BOOT, "unlock_ok": False},
+              {"mode": BOOT, "needs_change": True, "change": "accept"},
+              {"mode": BOOT, "needs_change": True, "change": "refuse"},
+              {"mode": BOOT, "needs_change": True, "change": "timeout"},
+              {"mode": BOOT, "needs_change": True, "change": "commit-fails", "platform": "SGX"},
+              {"mode": BOOT, "unlock_ok": False},
               {"mode": BOOT, "echo_ok": False}, {"mode": BOOT, "post_mode": BOOT},
               {"mode": UIHB}, {"mode": "unknown"}, {"onboarded": False}, {"onboarded": "error"},
               {"signer_version": [5, 4, 2]}, {"signer_version": [6, 0, 0]},
@@ -258,7 +273,7 @@ def run_server(c):
     return Out(["server:answered" if answered else "server:silent"], True)
 
 
-REQUIRED_LABELS = {t: ["out:serve", "out:error", "out:interrupt", "platform:Ledger",
+REQUIRED_LABELS = {t: ["change:%s" % x for x in CHANGES] + ["out:serve", "out:error", "out:interrupt", "platform:Ledger",
                        "platform:SGX", "platform:TCP", "unlocks:0", "unlocks:1", "serves",
                        "server:answered", "server:silent"] for t in ("quick", "thorough")}
 
